@@ -29,6 +29,35 @@ var allowedPanics = map[string]string{
 	"zkproof.(*Group).Exp":     "call-graph imprecision: Group is placed in base lookups only by keyproof (checked under C17); revocation and range proofs build their lookups from the public key and the proof",
 }
 
+// panicReason recognises the tabled panics by what guards them, wherever the code sits: the error of
+// encoding/asn1.Marshal (cannot fail for booleans and non-nil integers), and the error of hashing with the
+// package's constant algorithm (multihash fails only for an unsupported algorithm).
+func panicReason(p *ssa.Panic) (string, bool) {
+	for _, a := range controllingConds(p.Block()) {
+		a = normAtom(a)
+		bo, ok := a.V.(*ssa.BinOp)
+		if !ok || !isNilConst(bo.Y) || !((bo.Op.String() == "!=" && a.Want == True) || (bo.Op.String() == "==" && a.Want == False)) {
+			continue
+		}
+		c, idx := callAndResult(bo.X)
+		if c == nil || !isErrorType(bo.X.Type()) {
+			continue
+		}
+		_ = idx
+		switch n := calleeName(c); {
+		case n == "encoding/asn1.Marshal" || n == "asn1.Marshal":
+			return allowedPanics["common.HashCommit"], true
+		case n == "revocation.(*Event).hashUsingAlg" || n == "revocation.checkHashAlg" || strings.HasSuffix(n, "go-multihash.Sum"):
+			for _, arg := range c.Call.Args {
+				if _, isConst := arg.(*ssa.Const); isConst && isIntegerType(arg.Type()) && arg.Type().String() != "int" {
+					return allowedPanics["revocation.(*Event).hash"], true
+				}
+			}
+		}
+	}
+	return "", false
+}
+
 func init() {
 	register("C08",
 		Rule{ID: "C08.a", Explain: "nil safety (validated-before-use typestate): every dereference of a nullable value loaded from ProofD, ProofU, revocation.Proof, rangeproof.Proof or SignedAccumulator in the functions reachable from ProofList.Verify / ProofD.Verify / ProofU.Verify is preceded, on every path from the entry point, by a nil test of the same access path, a successful validator call (validators are computed), or an assignment of a trusted value. Also covers C08.b: indices decoded from the proof are bounded below and above before indexing, and untrusted slices indexed by another collection's loop have a length-equality test.",
@@ -55,6 +84,9 @@ func init() {
 							n++
 							k := FuncKey(fn)
 							reason, ok := allowedPanics[k]
+							if !ok {
+								reason, ok = panicReason(p)
+							}
 							R.decide("C08.d", k+":panic", "an explicit panic on the verification path is a tabled, unreachable-for-decoded-input one", ok, "untabled panic reachable from a verification entry point"+reason, P.Pos(p.Pos()))
 						}
 					})
